@@ -105,8 +105,8 @@ def check_index(case):
   _, n, x, i, form, setv = case      # setv None -> read ; else ('I',v) / ('B',w,v)
   a = _bits(n, x)
   if form == "b" and i < 0: return []
-  idx = i if form == "i" else _bits(max(n.bit_length() + 1, 3), i)
-  valid = 0 <= i < n
+  idx = i if form == "i" else (i + 0.5 if form == "f" else _bits(max(n.bit_length() + 1, 3), i))
+  valid = 0 <= i < n and form != "f"          # form "f": the float i + 0.5 is not a bit position
   fails = []
   if setv is None:
     try: r, exc = a[idx], None
@@ -116,7 +116,7 @@ def check_index(case):
       if exc is not None: fails.append(("getbit:valid:raised", want, repr(exc), f"Bits{n}({x})[{i}]"))
       elif r.nbits != 1 or int(r._uint) != want: fails.append(("getbit:valid:wrong", want, repr(r), f"Bits{n}({x})[{i}]"))
     elif exc is None:
-      fails.append((f"getbit:{'negative' if i < 0 else 'beyond'}:no-error", "IndexError", repr(r), f"Bits{n}({x})[{i}]"))
+      fails.append((f"getbit:{'non-integral' if form == 'f' else 'negative' if i < 0 else 'beyond'}:no-error", "IndexError", repr(r), f"Bits{n}({x})[{idx}]"))
     return fails
   setv = tuple(setv)
   if setv[0] == "I":
@@ -131,7 +131,7 @@ def check_index(case):
     if exc is not None: fails.append(("setbit:valid:raised", want, repr(exc), f"Bits{n}({x})[{i}]={setv}"))
     elif got != want: fails.append(("setbit:valid:wrong", want, got, f"Bits{n}({x})[{i}]={setv}"))
   else:
-    why = "value" if valid else ("negative" if i < 0 else "beyond")
+    why = "value" if valid else ("non-integral" if form == "f" else "negative" if i < 0 else "beyond")
     if exc is None: fails.append((f"setbit:{why}:no-error", "error", got, f"Bits{n}({x})[{i}]={setv}"))
     elif got != x: fails.append((f"setbit:{why}:error-but-mutated", x, got, ""))
   return fails
@@ -200,6 +200,13 @@ def _clog2(N):
   try: r = clog2(N)
   except Exception as e:
     return ("clog2:raised", want, repr(e), f"N={N if N < 1 << 64 else hex(N)[:20]}")
+  if r == want and N < (1 << 1023):
+    # the same number held in a fixed-width value
+    from pymtl3.datatypes import Bits
+    try: r = clog2(Bits(max(N.bit_length(), 1), N))
+    except Exception as e:
+      return ("clog2:bits-argument:raised", want, repr(e), f"N=Bits({N if N < 1 << 64 else hex(N)[:20]})")
+    if r != want: return ("clog2:bits-argument:wrong", want, r, f"N=Bits{N.bit_length()}({N if N < 1 << 64 else hex(N)[:20]})")
   if r != want:
     k = N.bit_length() - 1
     shape = "2^k" if N == 1 << k else ("2^k+1" if N == (1 << k) + 1 else ("2^k-1" if N == (1 << (k + 1)) - 1 else "other"))
@@ -232,7 +239,7 @@ def gen_slices(n, values, sets=True):
   B = bounds_alphabet(n)
   for lo in B:
     for hi in B:
-      for step in (None, 1, 2):
+      for step in (None, 1, 2, 0):
         for lf in forms_for(lo):
           for hf in forms_for(hi):
             if step is not None and (lf, hf) != (forms_for(lo)[0], forms_for(hi)[0]): continue
@@ -260,7 +267,8 @@ def gen_slices(n, values, sets=True):
 
 def gen_index(n, values):
   for i in range(-3, n + 3):
-    for form in ("i", "b"):
+    for form in ("i", "b", "f"):
+      if form == "f" and not -1 <= i <= n: continue
       for x in values:
         yield ("index", n, x, i, form, None)
       for x in (values[0], values[-1], values[len(values) // 2]):
